@@ -66,7 +66,7 @@ def compare(exp, obs):
         if oa != set(norm(a) for a in as_): probs.append("item %s has attributes %s, expected %s" % ("::".join(p), sorted(oa), sorted(norm(a) for a in as_)))
     return probs
 
-def make_family(name, reg0, nroots, tier, hash_order="insertion", compact_as=None):
+def make_family(name, reg0, nroots, tier, hash_order="insertion", compact_as=None, with_global_derive=True):
     paths = item_paths(reg0)
     def mk(eng):
         roots = []
@@ -75,14 +75,19 @@ def make_family(name, reg0, nroots, tier, hash_order="insertion", compact_as=Non
         spec = eng.choose([(i, True) for i in (range(len(paths)) if tier == "thorough" else [0, len(paths) - 1])])
         return {"roots": roots, "spec": spec}
     def run(eng, ctx):
-        d = ["derive_all Global", "attrtok_all allow(g)"]
+        d = (["derive_all Global"] if with_global_derive else []) + ["attrtok_all allow(g)"]
         rec = {}; specd = {}
         for k, r in enumerate(ctx["roots"]):
             p = "::".join(paths[r])
             d.append("derive_rec %s => Rec%d" % (p, k)); rec.setdefault(tuple(paths[r]), (set(), set()))[0].add("Rec%d" % k)
             if k == 0: d.append("attrtok_rec %s => rattr(%d)" % (p, k)); rec[tuple(paths[r])][1].add("rattr(%d)" % k)
         sp = "::".join(paths[ctx["spec"]])
-        d += ["derive_for %s => Spec" % sp, "attrtok_for %s => sattr" % sp]; specd[tuple(paths[ctx["spec"]])] = ({"Spec"}, {"sattr"})
+        if with_global_derive: d += ["derive_for %s => Spec" % sp, "attrtok_for %s => sattr" % sp]; specd[tuple(paths[ctx["spec"]])] = ({"Spec"}, {"sattr"})
+        else:
+            d += ["attrtok_for %s => sattr" % sp]; specd[tuple(paths[ctx["spec"]])] = (set(), {"sattr"})
+            # attribute-only configuration: recursive registrations carry attributes only
+            d = [x.replace("derive_rec", "attrtok_rec").replace("=> Rec", "=> recattr") if x.startswith("derive_rec") else x for x in d]
+            for k_, v_ in rec.items(): v_[1].update("recattr%s" % x[3:] for x in v_[0]); v_[0].clear()
         if compact_as: d.append("compact_as_path " + compact_as)
         st = Settings(["compact_path ::c::Compact", "bits_path ::b::Bits"] + d)
         out, regv, s = generate(eng, regdsl._clone(reg0), st)
@@ -94,10 +99,10 @@ def make_family(name, reg0, nroots, tier, hash_order="insertion", compact_as=Non
             return res
         res["outcome"] = "Ok"
         name, module = parse_root(out["tokens"])
-        exp = expected(reg0, {"Global"}, {"allow(g)"}, specd, rec, norm(compact_as) if compact_as else None)
+        exp = expected(reg0, {"Global"} if with_global_derive else set(), {"allow(g)"}, specd, rec, norm(compact_as) if compact_as else None)
         for p in compare(exp, observed(module)):
             res["violations"].append({"what": "%s | recursive roots %s, specific %s | %s" % (p, [paths[r][-1] for r in ctx["roots"]], paths[ctx["spec"]][-1], "; ".join(describe(reg0, 8))), "case": case, "kind": "sets",
-                                      "ctx": {"rec": {"::".join(k): [sorted(v[0]), sorted(v[1])] for k, v in rec.items()}, "spec": {"::".join(k): [sorted(v[0]), sorted(v[1])] for k, v in specd.items()}, "compact_as": compact_as}})
+                                      "ctx": {"glob": with_global_derive, "rec": {"::".join(k): [sorted(v[0]), sorted(v[1])] for k, v in rec.items()}, "spec": {"::".join(k): [sorted(v[0]), sorted(v[1])] for k, v in specd.items()}, "compact_as": compact_as}})
         if hash(tuple(eng.decisions)) % 5 == 0: res["validate"] = dict(case, expect={"result": "Ok", "tokens": plain_tok_str(out["tokens"])})
         if hash(tuple(eng.decisions)) % 11 == 0: res["sample"] = {"registry": describe(reg0, 5), "settings": d}
         return res
@@ -109,6 +114,7 @@ def families(eng, tier, seed):
         r = C[n]; np_ = len(item_paths(r))
         nroots = 2 if (np_ <= 12 or tier == "thorough") else 1
         fams.append(make_family("derives-%s" % n, r, nroots, tier))
+        if n in ("reach", "rec", "enum", "generics") or tier == "thorough": fams.append(make_family("attrsonly-%s" % n, r, 1, tier, with_global_derive=False))
         if tier == "thorough": fams.append(make_family("derives-%s-revhash" % n, r, nroots, tier, hash_order="reversed"))
     for ca in ("::parity_scale_codec::CompactAs", "codec::CompactAs"):
         for n in ("compact_as", "single", "compact", "tup"):
@@ -123,7 +129,7 @@ def confirm(v, real):
     name, module = parse_root(tokenize(real["tokens"]))
     rec = {tuple(k.split("::")): (set(a), set(b)) for k, (a, b) in c["rec"].items()}
     spec = {tuple(k.split("::")): (set(a), set(b)) for k, (a, b) in c["spec"].items()}
-    exp = expected(reg, {"Global"}, {"allow(g)"}, spec, rec, norm(c["compact_as"]) if c["compact_as"] else None)
+    exp = expected(reg, {"Global"} if c.get("glob", True) else set(), {"allow(g)"}, spec, rec, norm(c["compact_as"]) if c["compact_as"] else None)
     return bool(compare(exp, observed(module)))
 def classify(v):
     w = v["what"]
